@@ -28,6 +28,7 @@ vars == <<ty, rows, done>>
 TBool == [k |-> "bool"]
 TInt == [k |-> "int"]
 TStr == [k |-> "str"]
+TUnit == [k |-> "unit"]
 TTup(ts) == [k |-> "tuple", ts |-> ts]
 TEnum(n) == [k |-> "enum", n |-> n]
 TStruct(n) == [k |-> "struct", n |-> n]
@@ -38,6 +39,7 @@ Variants(n) ==
     [] n = "E3" -> << [v |-> "A", ts |-> <<>>], [v |-> "B", ts |-> <<TBool>>], [v |-> "C", ts |-> <<TBool, TEnum("E2")>>] >>
     [] n = "M_bool" -> << [v |-> "None", ts |-> <<>>], [v |-> "Some", ts |-> <<TBool>>] >>
     [] n = "M_E2" -> << [v |-> "None", ts |-> <<>>], [v |-> "Some", ts |-> <<TEnum("E2")>>] >>
+    [] n = "M_unit" -> << [v |-> "None", ts |-> <<>>], [v |-> "Some", ts |-> <<TUnit>>] >>
 \* struct S { x: bool, y: E2 }
 \* struct S2 { p: bool, q: bool }  (same-typed fields: a swapped binding is not a type error)
 Fields(n) == IF n = "S2" THEN << [f |-> "p", t |-> TBool], [f |-> "q", t |-> TBool] >>
@@ -58,6 +60,9 @@ TypeOfName(n) ==
     [] n = "me" -> TEnum("M_E2")
     [] n = "bbb" -> TTup(<<TTup(<<TBool, TBool>>), TBool>>)
     [] n = "e3e2" -> TTup(<<TEnum("E3"), TEnum("E2")>>)
+    [] n = "ub" -> TTup(<<TUnit, TBool>>)
+    [] n = "mu" -> TEnum("M_unit")
+    [] n = "mub" -> TTup(<<TEnum("M_unit"), TBool>>)
 
 IntLits == {0, 1}
 StrLits == {"a", "b"}
@@ -72,6 +77,7 @@ Vals(t) ==
   CASE t.k = "bool" -> {[k |-> "bool", v |-> TRUE], [k |-> "bool", v |-> FALSE]}
     [] t.k = "int" -> {[k |-> "int", v |-> i] : i \in IntVals}
     [] t.k = "str" -> {[k |-> "str", v |-> s] : s \in StrVals}
+    [] t.k = "unit" -> {[k |-> "unit", v |-> 0]}
     [] t.k = "tuple" -> {[k |-> "tuple", es |-> es] : es \in TupVals(t.ts, 1)}
     [] t.k = "enum" -> UNION {{[k |-> "variant", n |-> t.n, v |-> Variants(t.n)[i].v, as |-> as] : as \in TupVals(Variants(t.n)[i].ts, 1)} : i \in DOMAIN Variants(t.n)}
     [] t.k = "struct" -> {[k |-> "struct", n |-> t.n, fs |-> fs] : fs \in TupVals([i \in DOMAIN Fields(t.n) |-> Fields(t.n)[i].t], 1)}
@@ -88,6 +94,7 @@ Pats(t, d) ==
   (CASE t.k = "bool" -> {[k |-> "b", v |-> TRUE], [k |-> "b", v |-> FALSE]}
      [] t.k = "int" -> {[k |-> "i", v |-> i] : i \in IntLits}
      [] t.k = "str" -> {[k |-> "s", v |-> s] : s \in StrLits}
+     [] t.k = "unit" -> {[k |-> "u"]}             \* the pattern `()`: matches the only value of the type
      [] t.k = "tuple" -> IF d = 0 THEN {} ELSE {[k |-> "t", ps |-> ps] : ps \in TupPats(t.ts, 1, d - 1)}
      [] t.k = "enum" -> IF d = 0 THEN {} ELSE
           UNION {{[k |-> "c", v |-> Variants(t.n)[i].v, ps |-> ps] : ps \in TupPats(Variants(t.n)[i].ts, 1, d - 1)} : i \in DOMAIN Variants(t.n)}
@@ -99,7 +106,7 @@ Pats(t, d) ==
 RECURSIVE Matches(_, _)
 AllMatch(ps, vs) == \A i \in DOMAIN ps : Matches(ps[i], vs[i])
 Matches(p, v) ==
-  CASE p.k \in {"w", "v"} -> TRUE
+  CASE p.k \in {"w", "v", "u"} -> TRUE
     [] p.k \in {"b", "i", "s"} -> v.v = p.v
     [] p.k = "t" -> AllMatch(p.ps, v.es)
     [] p.k = "c" -> v.v = p.v /\ AllMatch(p.ps, v.as)
@@ -112,7 +119,7 @@ BindsSeq(ps, vs, idx) == IF idx = <<>> THEN <<>> ELSE Binds(ps[Head(idx)], vs[He
 Ident(n) == [i \in 1..n |-> i]
 Binds(p, v) ==
   CASE p.k = "v" -> <<v>>
-    [] p.k \in {"w", "b", "i", "s"} -> <<>>
+    [] p.k \in {"w", "b", "i", "s", "u"} -> <<>>
     [] p.k = "t" -> BindsSeq(p.ps, v.es, Ident(Len(p.ps)))
     [] p.k = "c" -> BindsSeq(p.ps, v.as, Ident(Len(p.ps)))
     [] p.k = "st" -> BindsSeq(p.ps, v.fs, p.order)
@@ -124,7 +131,7 @@ FirstMatch(rs, v) ==
 
 Exhaustive(rs, t) == \A v \in Vals(t) : FirstMatch(rs, v).arm # 0
 RECURSIVE Irrefutable(_)
-Irrefutable(p) == p.k \in {"w", "v"} \/ (p.k \in {"t", "st"} /\ \A i \in DOMAIN p.ps : Irrefutable(p.ps[i]))
+Irrefutable(p) == p.k \in {"w", "v", "u"} \/ (p.k \in {"t", "st"} /\ \A i \in DOMAIN p.ps : Irrefutable(p.ps[i]))
 \* a row no value can reach (shadowed by earlier rows)
 Redundant(rs, i, t) == \A v \in Vals(t) : FirstMatch(rs, v).arm # i
 
